@@ -58,9 +58,16 @@ class Run:
     def build_harness(self):
         """Build the harness (and with it the goverter packages) from /repo's working tree with -tags verif."""
         t = time.time()
-        shutil.copyfile(os.path.join(REPO, "go.sum"), os.path.join(HARNESS, "go.sum"))
+        hdir = HARNESS
+        if REPO != "/repo":
+            # another tree of goverter (scratch worktrees used to try seeded changes): build a private copy of the harness against it
+            hdir = os.path.join(self.scratch, "harness-src")
+            shutil.copytree(HARNESS, hdir)
+            gm = open(os.path.join(hdir, "go.mod")).read().replace("=> /repo", "=> " + REPO)
+            open(os.path.join(hdir, "go.mod"), "w").write(gm)
+        shutil.copyfile(os.path.join(REPO, "go.sum"), os.path.join(hdir, "go.sum"))
         out = os.path.join(self.scratch, "vh")
-        p = subprocess.run(["go", "build", "-tags", "verif", "-o", out, "./cmd/vh"], cwd=HARNESS, env=GOENV,
+        p = subprocess.run(["go", "build", "-tags", "verif", "-o", out, "./cmd/vh"], cwd=hdir, env=GOENV,
                            stdout=subprocess.PIPE, stderr=subprocess.STDOUT, text=True)
         if p.returncode != 0:
             raise Infra("harness/goverter build failed:\n" + p.stdout[-4000:])
@@ -268,7 +275,9 @@ class Run:
 
     def write_replay(self, cls, cause, ids):
         h = hashlib.sha1(("%s|%s|%s|%s" % (self.prop, cls, cause, ids[:3])).encode()).hexdigest()[:12]
-        d = os.path.join(VERIF, "replays", self.prop, h)
+        # trial runs against scratch trees (seeded changes) keep their bundles out of /verif
+        root = os.path.join(tempfile.gettempdir(), "verif-trial-replays") if os.environ.get("VERIF_NOEVIDENCE") else os.path.join(VERIF, "replays")
+        d = os.path.join(root, self.prop, h)
         os.makedirs(d, exist_ok=True)
         meta = {"property": self.prop, "class": cls, "cause": cause, "ids": ids[:50], "tier": self.tier, "seed": self.seed}
         with open(os.path.join(d, "meta.json"), "w") as fh:
